@@ -4,11 +4,11 @@
 
 package layers
 
-//@ define libT(x) := imp(x != nil, tinv(x) && preexisting(x))
+//@ define libT(x) := imp(x != nil, tinv(x) && published(x))
 
 // user-supplied initializer: nothing is known about what it returns (NewFC validates the result)
 //@ abstract Initializer.Init(shape []int) (t tensor.Tensor, err error)
-//@   ensures imp(t != nil, tinv(t) && preexisting(t))
+//@   ensures imp(t != nil, tinv(t) && published(t))
 
 // user-supplied seed function of the Input layer
 //@ abstract Input.SeedFunc() (t tensor.Tensor)
@@ -28,7 +28,7 @@ package layers
 
 /* ---------------- fc.go ---------------- */
 
-//@ define fcParams(c) := c.Weight != nil && c.Bias != nil && tinv(c.Weight) && tinv(c.Bias) && preexisting(c.Weight) && preexisting(c.Bias) && rank(c.Weight) == 1 && rank(c.Bias) == 1 && dim(c.Weight, 0) == dim(c.Bias, 0)
+//@ define fcParams(c) := c.Weight != nil && c.Bias != nil && tinv(c.Weight) && tinv(c.Bias) && published(c.Weight) && published(c.Bias) && rank(c.Weight) == 1 && rank(c.Bias) == 1 && dim(c.Weight, 0) == dim(c.Bias, 0)
 
 //@ func validateInitializedWeights
 //@   requires conf != nil && libT(w) && libT(b)
@@ -59,7 +59,7 @@ package layers
 // C16 (shape and totality; the affine value formula is decided by the bounded stand-in): for W, B of shape [O] and an
 // input [B, D] the result is [B, O] and no intermediate operation can fail
 //@ func FC.forward
-//@   requires fcParams(c) && tinv(x) && preexisting(x) && rank(x) == 2
+//@   requires fcParams(c) && tinv(x) && published(x) && rank(x) == 2
 //@   ensures[C16,C09] err == nil && y != nil && rank(y) == 2 && dim(y, 0) == dim(old(x), 0) && dim(y, 1) == dim(c.Weight, 0)
 
 //@ func FC.Forward
